@@ -188,9 +188,12 @@ def _same(a, b):
 def job_roundtrip(ss):
     import tf_pwa.data as D
 
-    for n in (1, 3, 4):
+    # n = 1001 with batches of one event: more batches than the generator's internal repetition count for empty containers
+    for n in (1, 3, 4, 1001):
         for name, data in _structures(n).items():
-            for b in sorted({1, 2, 3, n, n + 1}):
+            if n > 4 and not name.startswith("empty"):
+                continue
+            for b in sorted({1, 2, 3, n, n + 1} if n <= 4 else {1}):
                 tag = "%s,n=%d,b=%d" % (name, n, b)
                 payload = dict(kind="roundtrip", structure=name, n=n, b=b)
 
